@@ -129,4 +129,57 @@ def resolveRadii (g : Geo) (rm : Bool × Bool × Bool × Bool)
     br := resolveCorner br.1 br.2 (rm.2.2.1 || rm.2.1) bw bh
     bl := resolveCorner bl.1 bl.2 (rm.2.2.1 || rm.2.2.2) bw bh }
 
+/-! ### Which rectangle / rounded box a background is painted in (`layout/background.py`) and the
+path the drawing code emits for a rounded box (`draw/border.py rounded_box`) -/
+
+/-- `background-clip` of the layer. -/
+inductive BgClip where
+  | borderBox | paddingBox | contentBox
+  deriving Repr, DecidableEq, Inhabited
+
+/-- `box_rectangle(box, which_rectangle)`. -/
+def boxRectangle (g : Geo) : BgClip → Rat × Rat × Rat × Rat
+  | .borderBox => (g.borderBoxX, g.borderBoxY, g.borderWidth, g.borderHeight)
+  | .paddingBox =>
+    (g.positionX + g.marginLeft + g.borderLeft, g.positionY + g.marginTop + g.borderTop,
+     g.paddingWidth, g.paddingHeight)
+  | .contentBox =>
+    (g.positionX + g.marginLeft + g.padLeft + g.borderLeft,
+     g.positionY + g.marginTop + g.padTop + g.borderTop, g.width, g.height)
+
+/-- The `clipped_boxes` entry of an ordinary box in `layout_background_layer`. -/
+def clippedBox (g : Geo) : BgClip → RBox
+  | .borderBox => roundedBorderBox g
+  | .paddingBox => roundedPaddingBox g
+  | .contentBox => roundedContentBox g
+
+/-- Path construction operators of a content stream. -/
+inductive PathOp where
+  | re (x y w h : Rat)
+  | m (x y : Rat)
+  | l (x y : Rat)
+  | c (x1 y1 x2 y2 x3 y3 : Rat)
+  deriving Repr, DecidableEq, Inhabited
+
+/-- `0 in corner`. -/
+def cornerFlat (c : Rat × Rat) : Bool := c.1 == 0 || c.2 == 0
+
+/-- `rounded_box(stream, radii)` of `draw/border.py`: a rectangle when every corner has a zero
+component, else lines and Bézier corners with the control factor 0.45, clockwise from the top left. -/
+def roundedPath (b : RBox) : List PathOp :=
+  if cornerFlat b.tl && cornerFlat b.tr && cornerFlat b.br && cornerFlat b.bl then
+    [.re b.x b.y b.w b.h]
+  else
+    let r : Rat := 45 / 100
+    let x := b.x; let y := b.y; let w := b.w; let h := b.h
+    [.m (x + b.tl.1) y,
+     .l (x + w - b.tr.1) y,
+     .c (x + w - b.tr.1 * r) y (x + w) (y + b.tr.2 * r) (x + w) (y + b.tr.2),
+     .l (x + w) (y + h - b.br.2),
+     .c (x + w) (y + h - b.br.2 * r) (x + w - b.br.1 * r) (y + h) (x + w - b.br.1) (y + h),
+     .l (x + b.bl.1) (y + h),
+     .c (x + b.bl.1 * r) (y + h) x (y + h - b.bl.2 * r) x (y + h - b.bl.2),
+     .l x (y + b.tl.2),
+     .c x (y + b.tl.2 * r) (x + b.tl.1 * r) y (x + b.tl.1) y]
+
 end Wp.Rounded
